@@ -35,7 +35,31 @@ func HarnessC18() {
 	defs := schemas.Definitions{"Good": obj(map[string]*schemas.Type{"g": good()})}
 	pos := ""
 	swallowed := false
-	switch zzvrt.Choice(9) {
+	switch zzvrt.Choice(16) {
+	case 9:
+		pos = "unreferenced-definition-itself"
+		defs["Bad"] = fault
+	case 10:
+		pos = "referenced-definition-itself"
+		defs["Bad"] = fault
+		root.Properties["b"] = &schemas.Type{Ref: "#/$defs/Bad"}
+	case 11:
+		pos = "additional-properties"
+		root.Properties["m"] = &schemas.Type{Type: schemas.TypeList{"object"}, AdditionalProperties: fault}
+	case 12:
+		pos = "item-of-array-in-array"
+		root.Properties["arr"] = &schemas.Type{Type: schemas.TypeList{"array"}, Items: &schemas.Type{Type: schemas.TypeList{"array"}, Items: fault}}
+	case 13:
+		pos = "member-of-object-in-array"
+		root.Properties["arr"] = &schemas.Type{Type: schemas.TypeList{"array"}, Items: obj(map[string]*schemas.Type{"bad": fault})}
+	case 14:
+		pos = "anyOf-branch-itself"
+		root.Properties["any"] = &schemas.Type{AnyOf: []*schemas.Type{fault, obj(map[string]*schemas.Type{"q": good()})}}
+		swallowed = fault.Ref != ""
+	case 15:
+		pos = "member-of-definition-referenced-by-allOf-branch"
+		defs["Holder"] = obj(map[string]*schemas.Type{"bad": fault})
+		root.Properties["all"] = &schemas.Type{AllOf: []*schemas.Type{{Ref: "#/$defs/Holder"}, obj(map[string]*schemas.Type{"q": good()})}}
 	case 0:
 		pos = "property"
 		root.Properties["bad"] = fault
